@@ -153,9 +153,8 @@ Proof.
       * destruct (am_end st - s >? 32768) eqn:E3; [right; tauto|].
         right. cbn. split; [apply am_adjust_ok; [assumption|lia]|lia].
       * destruct (s + 1 >=? am_end st + 32768) eqn:E3; [right; cbn; split; [assumption|lia]|].
-        right. cbn. split.
-        -- apply am_adjust_ok; [assumption|]. destruct (am_begin st <? s + 1 - 32768) eqn:E4; lia.
-        -- destruct (am_begin st <? s + 1 - 32768) eqn:E4; lia.
+        destruct (am_begin st <? s + 1 - 32768) eqn:E4; right; cbn;
+          (split; [apply am_adjust_ok; [assumption|lia]|lia]).
   - unfold am_erase. destruct (s <? am_begin st) eqn:E1; [assumption|].
     destruct (s >=? am_end st) eqn:E2.
     + destruct H as [[H1 H2]|[Hc Hr]]; [left|right]; cbn; split; try assumption; lia.
